@@ -2,7 +2,7 @@
    bql / sbql / the hook attachment tables are regenerated from /repo on every run. *)
 From Coq Require Import List NArith Bool String.
 Import ListNotations.
-From BWGrammar Require Import Grammar GrammarProofs HookParser HookParserProofs HookLog HookLogProofs Hooks HooksProofs HooksInst.
+From BWGrammar Require Import Grammar GrammarProofs HookParser HookParserProofs HookLog HookLogProofs Hooks HooksProofs HooksInst LLk LLkProofs.
 From BWGrammar.Gen Require Import GrammarGen.
 Open Scope list_scope.
 Open Scope N_scope.
@@ -37,6 +37,37 @@ Proof.
   - eapply consume_fuel_enough; [apply (ll1_ok_parts bql START tok_eof bql_ok) | | exact E]. unfold fuel_for. auto.
 Qed.
 Print Assumptions C18_terminates.
+
+(* the token source: the parser does not read the list the theorems above speak of but the look-ahead window of
+   llk.go (NewLLk / Current / Peek / Consume over the lexer's channel).  For EVERY look-ahead k, token list and run of
+   Consume attempts: the outcomes are those of matching the list head by head ([lconsumes]); the state reached is a
+   view ([R]) of the list that remains, and in every such state Current is the head of that list (the EOF pad once it
+   is exhausted), Peek(j) its j-th element for 1 <= j <= k, an error otherwise.  No token is lost, duplicated or
+   reordered however long the statement is. *)
+Theorem C18_llk_window_is_the_token_list :
+  forall (Tok : Type) (pad : Tok) (kind : Tok -> N) (toks : list Tok) (k : nat),
+    R Tok pad (new_llk Tok pad toks k) toks /\
+    (forall tys, let l := new_llk Tok pad toks k in
+       snd (consumes Tok pad kind l tys) = snd (lconsumes Tok pad kind toks tys) /\
+       R Tok pad (fst (consumes Tok pad kind l tys)) (fst (lconsumes Tok pad kind toks tys))) /\
+    (forall l ts, R Tok pad l ts ->
+       current Tok l = Some (lcur Tok pad ts) /\
+       option_map kind (current Tok l) = Some (cur (kind pad) (map kind ts)) /\
+       (forall j, (1 <= j <= la Tok l)%nat -> peek Tok l j = Some (lnth Tok pad ts j)) /\
+       (forall j, (j = 0 \/ la Tok l < j)%nat -> peek Tok l j = None)).
+Proof.
+  intros Tok pad kind toks k. split; [apply new_R|]. split.
+  - intros tys l. apply consumes_spec. apply new_R.
+  - intros l ts H. split; [apply current_spec; exact H|]. split; [apply current_is_parser_cur; exact H|].
+    split; [intros j Hj; apply peek_spec; assumption | intros j Hj; apply peek_out_of_range; exact Hj].
+Qed.
+Print Assumptions C18_llk_window_is_the_token_list.
+
+Example C18_llk_nonvacuous :
+  fst (lconsumes N 0 (fun x => x) [5; 7; 9] [5; 8; 7]) = [9] /\
+  snd (consumes N 0 (fun x => x) (new_llk N 0 [5; 7; 9] 2) [5; 8; 7]) = [true; false; true] /\
+  win N (fst (consumes N 0 (fun x => x) (new_llk N 0 [5; 7; 9] 2) [5; 8; 7])) = [9; 0; 0].
+Proof. vm_compute. repeat split. Qed.
 
 (* the semantic layer may reject more but never accepts more: WHATEVER the hooks do (any state type, any hook
    functions), acceptance by the parser with hooks over the semantic grammar implies acceptance by the plain parser
